@@ -160,11 +160,11 @@ func run(r *simkit.Run) {
 	r.Meta["utxo_cache"] = fmt.Sprint(cfg.UtxoCacheMax)
 	r.Meta["maturity"] = fmt.Sprint(net.Maturity)
 	maxFile := uint32(0)
-	if (prof == "utxo" || prof == "crash") && c.Bool(200, "prune") {
+	if (prof == "utxo" || prof == "crash") && (c.Bool(200, "prune") || os.Getenv("VERIF_FORCE_PRUNE") != "") {
 		// a pruned node: small emulated block files, a target of a few
 		// files; forks stay shallow (see pickParent) because a pruned node
 		// cannot reorganise through block data it has deleted
-		maxFile = []uint32{1500, 3000, 6000}[c.Intn(3, "prune-file-size")]
+		maxFile = []uint32{800, 1500, 3000, 6000}[c.Intn(4, "prune-file-size")]
 		cfg.Prune = uint64(maxFile) * uint64(simkit.Range(c, 3, 6, "prune-files"))
 		r.Meta["prune"] = fmt.Sprintf("file=%d target=%d", maxFile, cfg.Prune)
 		r.Sig("prune")
@@ -234,6 +234,10 @@ func run(r *simkit.Run) {
 	}
 	if prof == "crash" {
 		steps = simkit.Range(c, 8, 40, "steps")
+		if cfg.Prune != 0 {
+			// enough blocks for the prune target to be reached
+			steps = simkit.Range(c, 25, 60, "steps-pruned")
+		}
 	}
 	invMuts, limMuts := invalidMutations(), limitMutations()
 
@@ -325,7 +329,31 @@ func run(r *simkit.Run) {
 			s.CloneCompare(c.Bool(500, "clone-flush-first"))
 		case 14: // submit a new transaction
 			var t *MTx
-			switch k := simkit.Pick(c, "ptx-kind", 50, 25, 15, 10, 8, 5, 2); k {
+			switch k := simkit.Pick(c, "ptx-kind", 50, 25, 15, 10, 8, 5, 2, 2); k {
+			case 7:
+				// more orphans than the orphan pool holds, then all the
+				// parents: evicted orphans must be gone for good
+				max := cfg.Pool.MaxOrphanTxs
+				if max > 5 || os.Getenv("VERIF_MODE") == "determinism" {
+					// (which orphan a full pool evicts is decided by Go's
+					// random map iteration inside the mempool: such runs are
+					// judged but not part of the replay claim, DESIGN 1.4)
+					continue
+				}
+				n := max + 1 + c.Intn(3, "flood-extra")
+				for j := 0; j < n; j++ {
+					if o := s.buildPoolTx(3); o != nil {
+						s.Submit(o, 0)
+					}
+				}
+				r.Probe("orphan-flood")
+				for len(s.ps.unsent) > 0 {
+					par := s.ps.unsent[0]
+					s.ps.unsent = s.ps.unsent[1:]
+					s.Submit(par, 0)
+				}
+				s.CheckPool("orphan-flood")
+				continue
 			case 6:
 				// two clusters that together sit around the eviction limit
 				s.evictionLimitScenario()
